@@ -324,3 +324,35 @@ Definition aval_get_default (d : aval) (k : string) (dflt : aval) : aval :=
 (* s[:-1] *)
 Definition py_str_drop_last (s : string) : string :=
   str_rev (match str_rev s with String _ t => t | EmptyString => EmptyString end).
+
+(* ---- metrics (flamapy.core Metrics.construct_result / get_ratio, the statistics module) ---- *)
+Inductive py_mres := PMNames (l : list string) | PMStr (s : string) | PMInt (z : Z) | PMHund (h : Z).
+Record py_metric := { pm_name : string; pm_result : py_mres; pm_size : option Z; pm_ratio : option Z;
+                      pm_parent : option string; pm_level : Z }.
+(* m["result"] used as a collection *)
+Definition py_metric_names (m : py_metric) : list string :=
+  match pm_result m with PMNames l => l | PMStr s => map (fun c => String c EmptyString) (list_ascii_of_string s) | _ => [] end.
+(* Metrics.get_ratio(c1, c2, precision) in ten-thousandths: 0.0 when the second collection is empty *)
+Definition py_get_ratio (n1 n2 precision : Z) : Z :=
+  if (n2 =? 0)%Z then 0%Z else (pyround_div n1 n2 precision * 10 ^ (4 - precision))%Z.
+Definition py_min (l : list Z) : result Z :=
+  match l with [] => Err ValueError | x :: xs => Ok (fold_left Z.min xs x) end.
+Definition py_min_default (l : list Z) (d : Z) : Z :=
+  match l with [] => d | x :: xs => fold_left Z.min xs x end.
+(* statistics.mean of integers as (sum, n); round(mean, 2) in hundredths *)
+Definition py_stat_mean (l : list Z) : result (Z * Z) :=
+  match l with [] => Err StatisticsError | _ => Ok (py_sum l, py_len l) end.
+Definition py_round_mean (m : Z * Z) : Z := if (fst m =? 0)%Z then 0%Z else pyround_div (fst m) (snd m) 2.
+(* statistics.median of integers, doubled (an integer or a half): the sorted middle element(s) *)
+Definition py_stat_median (l : list Z) : result Z :=
+  match l with
+  | [] => Err StatisticsError
+  | _ => let s := py_sorted_lt Z.ltb l in
+         let n := List.length s in
+         Ok (if Nat.even n then (nth (n / 2 - 1) s 0 + nth (n / 2) s 0)%Z else (2 * nth (n / 2) s 0)%Z)
+  end.
+(* list(dict.fromkeys(l)): first occurrences, in order *)
+Definition py_dedup {A} (eqb : A -> A -> bool) (l : list A) : list A :=
+  fold_left (fun acc x => if existsb (fun y => eqb y x) acc then acc else acc ++ [x]) l [].
+Definition py_dict_get {K V} (eqb : K -> K -> bool) (d : list (K * V)) (k : K) : result V :=
+  match find (fun p => eqb (fst p) k) d with Some p => Ok (snd p) | None => Err KeyError end.
